@@ -16,7 +16,7 @@ U4 = ("<-", "Users4")
 BASE_CONSTS = {
     "UserSeq": U3, "NA": 2, "D": 2, "Dev": set(),
     "Inputs": ("<-", "MCInputs"), "Bal0": ("<-", "MCBal0"), "Params0": ("<-", "MCParams0"),
-    "NL": 0, "KeepHist": False, "GenDepth": 0, "GenDir": ".", "KindBag": ("<-", "BagDefault"),
+    "NL": 0, "RejectSample": 0, "KeepHist": False, "GenDepth": 0, "GenDir": ".", "KindBag": ("<-", "BagDefault"),
     "Tmax": 7, "Jump": 2, "MaxAuc": 1, "CreateUntil": 1, "StartOffsets": {1}, "Dur": 2, "Templates": {"B1"}, "Bidders": {"u2", "u3"},
     "Prices": {1, 2}, "Amts": {1, 3}, "CapSet": {5}, "MaxBids": 2, "MaxMods": 1, "MaxDon": 0,
     "WithInvalid": False, "WithGenesis": False, "HookVariants": False, "Faults": {0}, "WithQueries": False,
@@ -59,16 +59,18 @@ MC_MULTI_Q = mc("MC_Multi_q", Templates={"B0", "F0"}, MaxAuc=2, Amts={2}, Prices
 
 TC_EXT_Q = mc("TC_Ext_q", Templates={"B5"}, Prices={1, 2}, Amts={2}, MaxBids=3, Tmax=5, Jump=1, CapSet={2, 4}, StartOffsets={0},
               CreateUntil=0, Dur=2, MaxMods=0, Bidders={"u2"})
-TC_FIXED_Q = mc("TC_Fixed_q", Templates={"F1"}, Amts={1, 2, 4}, MaxBids=2, Tmax=7, Jump=2, CapSet={3, 5}, StartOffsets={0, 1}, CreateUntil=1)
+TC_FIXED_Q = mc("TC_Fixed_q", WithInvalid=True, RejectSample=8, Templates={"F1", "F3"}, Amts={1, 2, 3}, MaxBids=2, Tmax=7, Jump=2, CapSet={3, 5}, StartOffsets={0, 1}, CreateUntil=1)
 TC_BATCH_Q = mc("TC_Batch_q", Templates={"B1"}, Prices={1, 2}, Amts={1, 3}, MaxBids=2, Tmax=8, Jump=2, StartOffsets={0, 1}, CreateUntil=1)
+TC_MODIFY_Q = mc("TC_Modify_q", RejectSample=40, Templates={"B0"}, Prices={1, 2, 3}, Amts={1, 3}, MaxBids=2, Tmax=3, Jump=2, StartOffsets={0}, CreateUntil=0,
+                 WithInvalid=True, Bidders={"u2"}, CapSet={5})
 TC_CANCEL_Q = mc("TC_Cancel_q", Templates={"F0", "B0"}, MaxAuc=1, Amts={1}, Prices={2}, MaxBids=1, Tmax=3, Jump=2, CapSet={5}, MaxDon=2,
                  StartOffsets={1, 2}, CreateUntil=1, WithInvalid=False)
 TC_MULTI_Q = mc("TC_Multi_q", Templates={"F0"}, MaxAuc=2, Amts={2}, Prices={2}, MaxBids=2, Tmax=3, Jump=2, CapSet={3, 5}, StartOffsets={0},
                 CreateUntil=1, Bidders={"u2"})
 GEN_GENERAL = [
-    gen("sysA", 110, 40, Templates={"B0", "B1", "B2", "F0", "F1"}, MaxAuc=2, Prices={1, 2, 3}, Amts={1, 2, 3, 5, 8},
+    gen("sysA", 110, 40, Templates={"B0", "B1", "B2", "F0", "F1", "F3"}, MaxAuc=2, Prices={1, 2, 3}, Amts={1, 2, 3, 5, 8},
         CapSet={3, 5, 10}, MaxBids=6, MaxDon=2, Tmax=24, Jump=3, CreateUntil=6, StartOffsets={0, 1, 2}, Dur=3, WithInvalid=True, WithGenesis=False),
-    gen("sysB", 110, 40, D=4, Templates={"B0", "B1", "B2", "Bl", "F1", "Fl"}, MaxAuc=2, Prices={2, 3, 4, 5, 6},
+    gen("sysB", 110, 40, D=4, Templates={"B0", "B1", "B2", "Bl", "F1", "Fl", "F3"}, MaxAuc=2, Prices={2, 3, 4, 5, 6},
         Amts={1, 2, 3, 4, 7}, CapSet={2, 6, 10}, MaxBids=6, MaxDon=1, Tmax=24, Jump=3, CreateUntil=6, StartOffsets={0, 1, 2}, Dur=3, UserSeq=U4, Bidders={"u2", "u3", "u4"},
         WithInvalid=True, WithGenesis=False),
 ]
@@ -100,15 +102,15 @@ PLANS = {
     "C03": dict(mc=[MC_BATCH_Q], gen=GEN_GENERAL),
     "C04": dict(mc=[MC_BATCH_Q, MC_FIXED_Q], gen=GEN_GENERAL, tc=[TC_BATCH_Q, TC_FIXED_Q], tc_max=2000),
     "C05": dict(mc=[MC_BATCH_Q, MC_FIXED_Q], gen=GEN_GENERAL),
-    "C06": dict(mc=[MC_FIXED_Q], gen=GEN_GENERAL),
+    "C06": dict(mc=[MC_FIXED_Q], gen=GEN_GENERAL, tc=[TC_FIXED_Q], tc_max=4000),
     "C07": dict(mc=[MC_LIFE_Q, MC_LIFE2_Q],
                 gen=GEN_GENERAL + [dict(g, name=g["name"] + "F", consts=dict(g["consts"], Faults={0, 1, 2, 3, 5, 8})) for g in GEN_MANY]),
     "C08": dict(mc=[MC_LIFE_Q, MC_LIFE2_Q], gen=GEN_GENERAL),
     "C09": dict(mc=[MC_LIFE_Q, MC_LIFE2_Q], gen=GEN_GENERAL),
     "C10": dict(mc=[MC_INVALID1_Q, MC_INVALIDF_Q], gen=GEN_GENERAL),
-    "C11": dict(mc=[MC_BATCH_Q], gen=GEN_GENERAL),
+    "C11": dict(mc=[MC_BATCH_Q], gen=GEN_GENERAL, tc=[TC_MODIFY_Q], tc_max=4000),
     "C12": dict(mc=[MC_INVALID1_Q, MC_INVALIDF_Q], gen=GEN_GENERAL, tc=[TC_CANCEL_Q], tc_max=2500),
-    "C13": dict(mc=[MC_BATCH_Q], gen=GEN_GENERAL, tc=[TC_EXT_Q], tc_max=2500),
+    "C13": dict(mc=[MC_BATCH_Q], gen=GEN_GENERAL, tc=[TC_EXT_Q], tc_max=12000),
     "C15": dict(mc=[MC_GENESIS_Q], gen=[dict(g, consts=dict(g["consts"], WithGenesis=True, KindBag=("<-", "BagGenesis"),
                                                  Templates=set(g["consts"]["Templates"]) | {"Bx"})) for g in GEN_GENERAL]),
     "C16": dict(mc=[MC_BATCH_Q, MC_FIXED_Q], tc=[TC_EXT_Q], tc_max=2500,
@@ -142,7 +144,23 @@ PLANS["C14"] = dict(mc=[], gen=GEN_MANY + scale(GEN_GENERAL, 0.3), check="C14", 
 PLANS["ALL"] = dict(mc=[], gen=GEN_GENERAL, check="ALL")
 
 
-THOROUGH_MC = {"MC_Fixed_q": MC_FIXED_T}
+MC_BATCH_T = mc("MC_Batch_t", Templates={"B1", "B5"}, Prices={1, 2, 3}, Amts={1, 3}, MaxBids=3, Tmax=8, timeout=2400)
+MC_LIFE_T = mc("MC_Life_t", D=4, Templates={"Fl", "Bl"}, MaxAuc=2, Amts={2}, Prices={4}, MaxBids=1, Tmax=10, Jump=3, CapSet={5},
+               CreateUntil=2, StartOffsets={0, 1}, timeout=2400)
+MC_MULTI_T = mc("MC_Multi_t", Templates={"B0", "F0"}, MaxAuc=2, Amts={2}, Prices={2}, MaxBids=2, Tmax=5, Jump=2, CapSet={3, 5}, timeout=2400)
+MC_GENESIS_T = mc("MC_Genesis_t", Templates={"B1", "F1", "Bx"}, MaxAuc=2, Amts={2}, Prices={2}, MaxBids=2, Tmax=7, Jump=2, WithGenesis=True,
+                  timeout=2400)
+MC_HOOKS_T = mc("MC_Hooks_t", NL=3, HookVariants=True, Templates={"B0", "F0", "B1"}, Amts={2}, Prices={2}, MaxBids=2, Tmax=6, Jump=2,
+                CapSet={5}, StartOffsets={0, 1}, timeout=2400)
+TC_EXT_T = mc("TC_Ext_t", Templates={"B5"}, Prices={1, 2}, Amts={2}, MaxBids=3, Tmax=5, Jump=1, CapSet={2, 4}, StartOffsets={0},
+              CreateUntil=0, Dur=2, MaxMods=0, timeout=2400)
+TC_BATCH_T = mc("TC_Batch_t", Templates={"B1"}, Prices={1, 2, 3}, Amts={1, 3}, MaxBids=3, Tmax=8, Jump=2, StartOffsets={0, 1}, CreateUntil=1,
+                timeout=2400)
+TC_FIXED_T = mc("TC_Fixed_t", Templates={"F1", "F3"}, Amts={1, 2, 3}, MaxBids=3, Tmax=7, Jump=2, CapSet={3, 5}, StartOffsets={0, 1}, CreateUntil=1,
+                timeout=2400)
+THOROUGH_MC = {"MC_Fixed_q": MC_FIXED_T, "MC_Batch_q": MC_BATCH_T, "MC_Life2_q": MC_LIFE_T, "MC_Multi_q": MC_MULTI_T,
+               "MC_Genesis_q": MC_GENESIS_T, "MC_Hooks_q": MC_HOOKS_T, "MC_Invalid1_q": MC_INVALID_Q, "TC_Ext_q": TC_EXT_T,
+               "TC_Batch_q": TC_BATCH_T, "TC_Fixed_q": TC_FIXED_T}
 LEMMAS = {"C01": ["L1", "L2", "L3", "L4", "L7"], "C03": ["L5"], "C04": ["L1", "L2", "L3", "L6"], "C05": ["L3"],
           "C09": ["L7"], "C11": ["L4"], "C13": ["L9"]}
 
@@ -153,6 +171,10 @@ def plan(prop, tier):
     p = dict(PLANS[prop])
     if prop in LEMMAS:
         p["lemmas"] = LEMMAS[prop]
+    if prop in ("C08", "C13"):
+        p["lifecycle"] = True
+    if prop in ("C02", "C07", "C08", "C10", "C12", "C18"):
+        p["abci"] = 60 if tier == "quick" else 600
     if tier == "thorough":
         p["gen"] = scale(p.get("gen", []), 10)
         p["tc_max"] = 10 ** 7
@@ -185,31 +207,37 @@ def samples(traces, n):
     return out
 
 
-def count_nontrivial(prop, traces):
-    """evaluations = replayed real-code steps; distinct_nontrivial = distinct (action kind, accepted?, pre-status of the
-    target auction, post-status) combinations with a state change, counted over the recorded traces."""
-    seen = set()
-    n = 0
+def accumulate_nontrivial(stats, t):
+    prev = None
+    for line in open(t):
+        r = json.loads(line)
+        if r["i"] > 0 and r.get("judge", True):
+            stats["evaluations"] += 1
+            a = r["act"]
+            tid = a.get("id", None)
+            pre_st = post_st = None
+            if prev is not None and isinstance(tid, int) and 0 <= tid < len(prev["st"]["auctions"]):
+                pre_st = prev["st"]["auctions"][tid]["status"]
+                post_st = r["st"]["auctions"][tid]["status"]
+            if prev is not None and prev["st"] != r["st"]:
+                stats["seen"].add((a["a"], r["res"]["ok"], pre_st, post_st, a.get("type"), len(r["xfers"])))
+        prev = r if r["i"] > 0 or True else None
+
+
+def count_nontrivial(prop, traces, extra=None):
+    """evaluations = judged real-code steps; distinct_nontrivial = distinct (action kind, accepted?, status of the target
+    auction before, after, bid type, number of bank transfers) combinations among state-changing judged steps."""
+    stats = {"evaluations": 0, "seen": set()}
     for t in traces:
-        prev = None
-        for line in open(t):
-            r = json.loads(line)
-            if r["i"] > 0:
-                n += 1
-                a = r["act"]
-                tid = a.get("id", None)
-                pre_st = post_st = None
-                if prev is not None and isinstance(tid, int) and tid < len(prev["st"]["auctions"]):
-                    pre_st = prev["st"]["auctions"][tid]["status"]
-                    post_st = r["st"]["auctions"][tid]["status"]
-                changed = prev is not None and prev["st"] != r["st"]
-                if changed:
-                    seen.add((a["a"], r["res"]["ok"], pre_st, post_st, a.get("type"), len(r["xfers"])))
-            prev = r
-    return {"evaluations": n, "distinct_nontrivial": len(seen),
+        if os.path.exists(t):
+            accumulate_nontrivial(stats, t)
+    if extra:
+        stats["evaluations"] += extra["evaluations"]
+        stats["seen"] |= extra["seen"]
+    return {"evaluations": stats["evaluations"], "distinct_nontrivial": len(stats["seen"]),
             "rule": "evaluations = real-code steps replayed and judged by the monitor; distinct_nontrivial = distinct "
                     "(action, accepted, target status before, after, bid type, number of bank transfers) tuples among "
-                    "state-changing steps"}
+                    "state-changing judged steps"}
 
 
 def when_matches(when, step, pre):
